@@ -16,6 +16,7 @@ package main
 //           infix blocks, multiple assignment, labelled break/continue out of nested lets
 //   mal     a `full` history with one token-level mutation (mostly malformed / ill-typed)
 //   rep     a `full` or `ctx` history served N times by one interpreter
+//   reent   re-entrancy of every scoped control construct (gen_reent.go)
 //   script  (bal only) the repo's tests/*.zy, compile only
 
 import (
@@ -252,6 +253,8 @@ type rg struct {
 	scopesInLoop int
 	uniq         int
 	budget       int
+	self         string // stream reent: the function being defined may call itself …
+	selfArity    int    // … with this many arguments, the first one `(- x 1)` guarded by `(> x 0)` (x is read-only)
 }
 
 func (r *rg) rnd(n int) int           { return r.g.Rng.Intn(n) }
@@ -295,6 +298,9 @@ func (r *rg) ie(d int) string {
 			return v
 		}
 		return r.lit()
+	}
+	if r.self != "" && r.rnd(6) == 0 {
+		return r.selfCall(d)
 	}
 	for try := 0; try < 8; try++ {
 		switch r.rnd(34) {
@@ -432,12 +438,36 @@ func (r *rg) ie(d int) string {
 	return r.lit()
 }
 
+// selfCall: a guarded call of the function being defined (stream reent): direct, through a
+// closure, through map / apply, as a let initialiser (never a tail call) or bare (a tail call
+// when it ends the body)
+func (r *rg) selfCall(d int) string {
+	args := "(- x 1)"
+	for i := 1; i < r.selfArity; i++ {
+		args += " " + r.ie(d-2)
+	}
+	var call string
+	switch r.rnd(7) {
+	case 0:
+		call = fmt.Sprintf("((fn [m] (%s m%s)) (- x 1))", r.self, strings.Repeat(" 0", r.selfArity-1))
+	case 1:
+		call = fmt.Sprintf("(first (map (fn [m] (%s m%s)) [(- x 1)]))", r.self, strings.Repeat(" 1", r.selfArity-1))
+	case 2:
+		call = fmt.Sprintf("(apply %s [(- x 1)%s])", r.self, strings.Repeat(" 2", r.selfArity-1))
+	case 3:
+		call = fmt.Sprintf("(let [%s (%s %s)] (+ 1 %s))", "sv", r.self, args, "sv")
+	default:
+		call = fmt.Sprintf("(%s %s)", r.self, args)
+	}
+	return fmt.Sprintf("(cond (> x 0) %s %s)", call, r.lit())
+}
+
 // closedIe: an int expression over globals only (evaluated in another function's context)
 func (r *rg) closedIe(d int) string {
-	save, sl, sr := r.locals, r.labels, r.ro
-	r.locals, r.labels, r.ro = nil, nil, nil
+	save, sl, sr, ss := r.locals, r.labels, r.ro, r.self
+	r.locals, r.labels, r.ro, r.self = nil, nil, nil, ""
 	s := r.ie(d)
-	r.locals, r.labels, r.ro = save, sl, sr
+	r.locals, r.labels, r.ro, r.self = save, sl, sr, ss
 	return s
 }
 
@@ -922,6 +952,7 @@ func restStreams(g *Gen, emit func(mode string, texts [][]string, tag string)) {
 		g.Count(fmt.Sprintf("%s forms<=%d", tag, (nforms/4+1)*4))
 		emit(mode, texts, tag)
 	}
+	reentStream(g, emit)
 }
 
 func restGen(g *Gen) {
